@@ -273,7 +273,8 @@ C20_TYPES = ["ListInt", "ListListInt", "DictStrListInt", "DDictStrListInt", "Set
              "WithDefaults", "KwModel", "StreamHolder", "TD", "AT", "M1", "Node", "Holder", "Outer1", "GListInt", "MapStrInt",
              "MapStrListInt", "MMapStrListInt", "SeqListInt", "IterListInt", "TupListDict", "TupListEll", "DequeInt", "DictStrM1",
              "DictStrNode", "ListM1", "Tree", "LinkedInt", "SetTupInt", "PM", "SnakeCase", "DDictStrInt", "TupIntEll", "Perm", "M2",
-             "ULM1LM2", "UDM1DM2", "SatModel", "SatOpt", "SatOpt", "SnakeCase"]
+             "ULM1LM2", "UDM1DM2", "SatModel", "SatOpt", "SatOpt", "SnakeCase", "WithExtra2", "WithExtra3", "WithExtra4", "WithExtra4", "TNode", "TupIntStr",
+             "TupLit01"]
 C20_RECIPES = ["plain", "plain", "nm_extra_collect", "nm_extra_collect", "nm_omit_default", "nm_as_list", "nm_camel",
                "nm_extra_forbid", "validator_inner", "chain_node_children", "flag_names", "flag_names", "nm_saturator", "nm_saturator", "nm_paths", "nm_paths"]
 C20_CONV = ["CLinkStr", "ImplExtra", "ImplTags", "ImplTags","Outer", "OuterSame", "Inner", "InnerSame", "ListInner", "GIntGInt", "OptInner", "DictInner", "InnerTags", "M1M2",
